@@ -39,6 +39,8 @@ class Grammar:
         self.tvtype = 'V'     # value kind returned by typed-term functors
         self.lexspec = None   # custom lexer script: ([term per byte], [length per byte]) or None
         self.ttstate = False  # typed-term functors share one C++ type and differ only in their stored state
+        self.limits = None    # user limits (state cap, items-per-state cap) or None for the defaults
+        self.rt = False       # construct the parser object at run time only (constant evaluation of the analyser would be too costly)
     # term indices: 0..T-1 user terms, T eof, T+1 error token
     @property
     def T(self): return len(self.terms)
@@ -68,7 +70,7 @@ class Grammar:
         return '; '.join(out)
     def to_json(self):
         return {'nts': self.nts, 'terms': [t.to_json() for t in self.terms], 'rules': [r.to_json() for r in self.rules],
-                'root': self.root, 'vtypes': self.vtypes, 'note': self.note, 'tvtype': self.tvtype, 'lexspec': self.lexspec, 'ttstate': self.ttstate}
+                'root': self.root, 'vtypes': self.vtypes, 'note': self.note, 'tvtype': self.tvtype, 'lexspec': self.lexspec, 'ttstate': self.ttstate, 'limits': list(self.limits) if self.limits else None, 'rt': self.rt}
     @staticmethod
     def from_json(d):
         g = Grammar(d['nts'], [Term.from_json(t) for t in d['terms']], [Rule.from_json(r) for r in d['rules']],
@@ -76,6 +78,8 @@ class Grammar:
         g.tvtype = d.get('tvtype', 'V')
         g.lexspec = d.get('lexspec')
         g.ttstate = d.get('ttstate', False)
+        g.limits = tuple(d['limits']) if d.get('limits') else None
+        g.rt = d.get('rt', False)
         return g
     def key(self):
         d = self.to_json(); d.pop('note', None)
